@@ -186,6 +186,15 @@ def inline(eng, st, fv, args, kwargs):
     eng.inline_depth += 1
     try:
         outs = []
+        if id(fv.node) in getattr(eng, "memoised_fns", ()):
+            # functools.lru_cache hashes the arguments before anything else: an argument that is not known to be hashable makes the call
+            # itself raise TypeError (e.g. an inspect.Signature whose parameter defaults are arrays / lists / dicts)
+            def hashable(v):
+                return isinstance(v, (NoneV, Cls, Fn)) or (isinstance(v, Z) and v.kind in ("str", "int", "bool")) or (isinstance(v, Opaque) and (v.tag.startswith("sentinel:") or v.tag.startswith("module:")))
+            if not all(hashable(v) for v in list(args) + list(kwargs.values())):
+                s_h = st.clone()
+                s_h.path.append(f"{fv.name}:memoised-call-hashes-an-unhashable-argument")
+                outs.append((s_h, Raised(Exc("OtherTypeError", origin=f"lru_cache:{fv.name}"))))
         for s2, o in eng.run(fv.node.body, s1):
             s2.env = saved_env
             if o.kind == "return":
